@@ -680,6 +680,28 @@ let cmd_yib (args : string list) : string =
      | _ -> "err undecodable")
   | _ -> "err badcmd"
 
+(* ---------- which deep observers are called with which events and paths (Crdt/Dispatch.v: call_observers / call_type_observers) ---------- *)
+(* types "P;S;H;K;seq;links/..." parents first: P = - | parent index, S = - | key number, H = holder item number, K = TypeRef kind,
+   seq = _ | id.len.d,... (the sequence at commit: item number, countable length, deleted), links = _ | i,i (linked_by of the holder) *)
+let cmd_evd (args : string list) : string =
+  let nums s = if s = "_" || s = "" then [] else List.map n_of_hex (String.split_on_char ',' s) in
+  let opt s = if s = "-" then None else Some (n_of_hex s) in
+  match args with
+  | ["deep"; types; events; dobs] ->
+    let tys = if types = "_" then [] else List.map (fun t -> match String.split_on_char ';' t with
+      | [p; sb; h; k; sq; lk] ->
+        let seq = if sq = "_" then [] else List.map (fun e -> match String.split_on_char '.' e with
+          | [i; l; d] -> ((n_of_hex i, n_of_hex l), d = "1") | _ -> failwith "evd seq") (String.split_on_char ',' sq) in
+        (((((opt p, opt sb), n_of_hex h), n_of_hex k), seq), nums lk)
+      | _ -> failwith "evd type") (String.split_on_char '/' types) in
+    (match evd_deep_calls tys (nums events) (nums dobs) with
+     | None -> "none"
+     | Some calls ->
+       let cpt = (match evd_changed_parent_types tys (nums events) with Some l -> String.concat "," (List.map hex_of_n l) | None -> "none") in
+       "ok " ^ (match calls with [] -> "_" | _ -> String.concat ";" (List.map (fun (o, es) ->
+         hex_of_n o ^ "[" ^ String.concat "|" (List.map (fun (t, path) -> hex_of_n t ^ ":" ^ String.concat "." (List.map (fun (isk, v) -> (if isk then "k" else "i") ^ hex_of_n v) path)) es) ^ "]") calls)) ^ " cpt=" ^ cpt)
+  | _ -> "err badcmd"
+
 (* ---------- codecs ---------- *)
 let print_idm (v : (n * ((n * n) * ((n list * any) option) list) list) list) : string =
   let pa = function None -> "?" | Some (nm, vl) -> rawhex nm ^ "=" ^ print_any vl in
@@ -707,6 +729,12 @@ let cmd_dec (args : string list) : string =
   | ["reenc_sticky2"; hx] -> (match w2_decode_sticky (bytes_of_hex hx) with Ok (v, _) -> (match w2_encode_sticky_opt v with Some o -> "ok " ^ hex_of_bytes o | None -> "panic encode") | Err e -> "err " ^ err_name e | Panic s -> "panic " ^ hex_of_n s | Fuel -> "fuel")
   (* attributed id map (values are strings) *)
   | ["idmap"; hx] -> let bs = bytes_of_hex hx in pres (fun v -> print_idm (idm_resolve v)) (idm_decode_v1 (fuel_for bs) bs)
+  (* the lib0 v2 form (Codec/IdMapV2.v) *)
+  | ["idmap2"; hx] -> pres (fun v -> print_idm (idm_resolve v)) (im2_decode (bytes_of_hex hx))
+  | ["reenc_idmap2"; hx] ->
+    (match im2_decode (bytes_of_hex hx) with
+     | Ok (v, _) -> (match im2_encode v with Some o -> "ok " ^ hex_of_bytes o | None -> "panic encode")
+     | Err e -> "err " ^ err_name e | Panic s -> "panic " ^ hex_of_n s | Fuel -> "fuel")
   | ["reenc_idmap"; hx] ->
     let bs = bytes_of_hex hx in
     (match idm_decode_v1 (fuel_for bs) bs with
@@ -1002,6 +1030,7 @@ let dispatch (line : string) : string =
   | "STK" :: args -> cmd_stk args
   | "GCB" :: args -> cmd_gcb args
   | "YIB" :: args -> cmd_yib args
+  | "EVD" :: args -> cmd_evd args
   | "DEC" :: args -> cmd_dec args
   | "ENC" :: args -> cmd_enc args
   | ["PING"] -> "ok pong"
